@@ -12,6 +12,7 @@ package main
 
 import (
 	"go/ast"
+	"go/constant"
 	"go/token"
 	"go/types"
 	"strings"
@@ -168,6 +169,9 @@ func (n *normalizer) text(e ast.Node) string {
 		if o == nil {
 			o = n.info.Defs[x]
 		}
+		if v, ok := n.moduleConst(o); ok {
+			return v
+		}
 		if n.isLocal(o) {
 			if d := n.defOf[o]; d != nil && !n.inline[o] && n.depth < 4 {
 				n.inline[o] = true
@@ -188,6 +192,9 @@ func (n *normalizer) text(e ast.Node) string {
 	case *ast.ParenExpr:
 		return "(" + n.text(x.X) + ")"
 	case *ast.SelectorExpr:
+		if v, ok := n.moduleConst(n.info.Uses[x.Sel]); ok {
+			return v
+		}
 		return n.text(x.X) + "." + x.Sel.Name
 	case *ast.IndexExpr:
 		return n.text(x.X) + "[" + n.text(x.Index) + "]"
@@ -234,4 +241,17 @@ func (n *normalizer) text(e ast.Node) string {
 		return "func{…}"
 	}
 	return exprText(n.fset, e)
+}
+
+// moduleConst: a named constant of the module (package level or local) is printed by VALUE, so that
+// `"status"` and `const statusSubdir = "status"` give the same key.  The packages are checked one by one with
+// an importer that knows no members of other packages, so every constant that resolves (and is not one of
+// the universe: true, false, iota) belongs to the package under translation; constants of other packages
+// (`os.O_APPEND`, `pflag.ContinueOnError`) do not resolve and keep their names.
+func (n *normalizer) moduleConst(o types.Object) (string, bool) {
+	c, ok := o.(*types.Const)
+	if !ok || c.Pkg() == nil || c.Val() == nil || c.Val().Kind() == constant.Unknown {
+		return "", false
+	}
+	return c.Val().ExactString(), true
 }
